@@ -68,6 +68,17 @@ Definition in_range (x lo hi : float) : bool := negb ((x <? lo)%float || (hi <? 
 Definition amp_threshes_ok (lo hi : float) : bool := in_range lo 0 hi && in_range hi lo infinity.
 Definition min_n_ok (n : Z) : bool := (0 <=? n)%Z.
 
+(* The amplitude method reads a minimum cycle count in TWO dictionaries: burst_kwargs (b: the count of the dual-threshold
+   detector) and the thresholds (t: the count of the run filter); either may be absent.  A negative count is rejected
+   wherever it is given. *)
+Definition opt_min_n_ok (c : option Z) : bool := match c with None => true | Some n => min_n_ok n end.
+Definition min_n_pair_ok (b t : option Z) : bool := opt_min_n_ok b && opt_min_n_ok t.
+(* before the repair (/repo 5602cfc) only the count the pipeline ends up using was validated (compute_features:
+   burst_kwargs', else the thresholds', else 3; the thresholds' entry was overwritten before anything looked at it) *)
+Definition effective_min_n (b t : option Z) : Z :=
+  match b with Some n => n | None => match t with Some n => n | None => 3%Z end end.
+Definition min_n_pair_ok_legacy (b t : option Z) : bool := min_n_ok (effective_min_n b t).
+
 (* enumerated options: membership in the documented list (index of the value or "other") *)
 Inductive opt := OptValid (i : nat) | OptOther.
 Definition option_ok (n_valid : nat) (o : opt) : bool :=
@@ -136,6 +147,8 @@ Definition bad_in_range := report run_in_range Bool.eqb.
 Definition run_amp_threshes (x : float * float) : bool := amp_threshes_ok (fst x) (snd x).
 Definition bad_amp_threshes := report run_amp_threshes Bool.eqb.
 Definition bad_min_n := report min_n_ok Bool.eqb.
+Definition run_min_n_pair (x : option Z * option Z) : bool := min_n_pair_ok (fst x) (snd x).
+Definition bad_min_n_pair := report run_min_n_pair Bool.eqb.
 Definition run_option (x : optname * option string) : bool := option_accepts (fst x) (snd x).
 Definition bad_option := report run_option Bool.eqb.
 Definition run_optval (x : optname * pyval) : bool := option_accepts_val (fst x) (snd x).
